@@ -64,6 +64,8 @@ type pendingCase struct {
 	iCompile, iRcanon, iFlow int
 	compileWant              string   // canonical text the model's compile must equal (from-scratch real dump)
 	update                   bool     // the dump was produced by UPDATE transitions on a live manager
+	event                    bool     // the dump is the state right after an EVENT (no periodic sync yet)
+	staleOnly                bool     // event state = from-scratch state + set entries of pods relabelled since the last resync
 	replayLines              []string // what a replay file of this case holds
 }
 
@@ -114,6 +116,18 @@ func (bt *Batch) AddDump(name string, c *Cluster, ps []NetPol, flows []Flow, d *
 	res := &CaseResult{Lines: Lines(c, ps), Flows: flows, Sigs: map[string]int{}, SyncState: "ok"}
 	pc := &pendingCase{name: name, c: c, ps: ps, res: res}
 	bt.queue(pc, d, compileWant, true, replayLines)
+	return res
+}
+
+// AddEvent queues the kernel state right after an event handler returned (before any periodic full sync): every flow
+// the event state decides differently from a from-scratch compile of the current cluster is a deviation of the
+// event path.  staleOnly: the only difference to the from-scratch state are extra set members that are addresses of
+// pods relabelled since the last resync (UpdatePod only ever ADDS to ipsets).
+func (bt *Batch) AddEvent(name string, c *Cluster, ps []NetPol, flows []Flow, d *Dump, staleOnly bool,
+	replayLines []string) *CaseResult {
+	res := &CaseResult{Lines: Lines(c, ps), Flows: flows, Sigs: map[string]int{}, SyncState: "ok"}
+	pc := &pendingCase{name: name, c: c, ps: ps, res: res, event: true, staleOnly: staleOnly}
+	bt.queue(pc, d, "", true, replayLines)
 	return res
 }
 
@@ -179,7 +193,7 @@ func (bt *Batch) finish(pc *pendingCase, outl []string) {
 		}
 	}
 	rep.Traces++
-	if outl[iCompile] != pc.compileWant {
+	if !pc.event && outl[iCompile] != pc.compileWant {
 		rep.Disagree = append(rep.Disagree, hx.Disagreement{Where: "compile: installed sets/rules vs model", Index: iCompile,
 			Impl: diffHint(pc.compileWant, outl[iCompile], true), Model: diffHint(pc.compileWant, outl[iCompile], false), Replay: replay()})
 	}
@@ -213,6 +227,30 @@ func (bt *Batch) finish(pc *pendingCase, outl []string) {
 		}
 		if kv["frag"] == "1" {
 			res.InFrag++
+		}
+		if pc.event {
+			// event-level check: only what the event path decides differently from a from-scratch compile is judged here
+			rep.Histogram["event-flows-walked"]++
+			if kv["real"] == kv["model"] {
+				continue
+			}
+			sig := "event-state-denies-allowed"
+			if kv["real"] == "A" {
+				sig = "event-state-accepts-forbidden"
+				if pc.staleOnly {
+					sig = "relabel-stale-membership-until-resync"
+				}
+			}
+			rep.Hit("mismatch:" + sig)
+			res.Sigs[sig]++
+			res.Mismatch++
+			if !Seen[sig] {
+				Seen[sig] = true
+				rep.Violations = append(rep.Violations, hx.Violation{Signature: sig, What: fmt.Sprintf("right after the event "+
+					"(before the periodic sync) flow %s: installed rules give %s, a from-scratch compile of the current state "+
+					"gives %s, API semantics %v", f.Line(), kv["real"], kv["model"], ref), Replay: replayAs("-"+sig, f.Line())})
+			}
+			continue
 		}
 		if kv["real"] != kv["model"] && pc.update {
 			// the rules left by the update transitions decide a flow differently from a from-scratch compile
